@@ -45,8 +45,11 @@ func (ctx *RenderContext) ApplyFilter(name string, value interface{}, args ...in
 		var b strings.Builder
 		b.Grow(len(str) + len(str)/8)
 
-		// Single-pass iteration is much more efficient than nested Replace calls
-		for _, c := range str {
+		// Single-pass iteration is much more efficient than nested Replace calls.
+		// The five special characters are ASCII, so the string is walked byte by byte:
+		// every other byte (including invalid UTF-8) passes through unchanged.
+		for i := 0; i < len(str); i++ {
+			c := str[i]
 			switch c {
 			case '&':
 				b.WriteString("&amp;")
@@ -59,7 +62,7 @@ func (ctx *RenderContext) ApplyFilter(name string, value interface{}, args ...in
 			case '\'':
 				b.WriteString("&#39;")
 			default:
-				b.WriteRune(c)
+				b.WriteByte(c)
 			}
 		}
 
